@@ -1,7 +1,10 @@
 """Engine HIST: command histories against explicit models for the four subjects (C20-C23).
 
 A *case* is JSON: {"cfg": {...}, "cmds": [cmd, ...]} with
-    cfg   C20 {} | C21 {"init": value name} | C22 {"buf": int|None, "win": int|None} | C23 {}
+    cfg   C20 {} | C21 {"init": value name} | C22 {"buf": int|None, "win": int|None, "clock": ...} | C23 {}
+          C22 "clock": "test" (default; TestScheduler, integer ticks) | "hist" (HistoricalScheduler, datetime clock, 1 tick =
+          1 ms, window passed as a timedelta) | "default" (no scheduler argument: the subject uses the current-thread
+          trampoline, every command is drained before it returns, 'adv' is ignored and the window is None)
     cmd   ["sub", behaviour]        subscribe a fresh recording observer
           ["unsub", i]              dispose the subscription of observer #(i mod live) (mod all if none is live)
           ["next", value name]      subject.on_next(val(name))
@@ -12,7 +15,14 @@ A *case* is JSON: {"cfg": {...}, "cmds": [cmd, ...]} with
     behaviour {"k": "plain"} | {"k": "unsub_self", "at": k} | {"k": "unsub_other", "at": k, "who": j}
           | {"k": "sub_new", "at": k, "child": behaviour-without-sub_new}; optional "bare": true
           | {"k": "emit", "at": k, "what": ["next", value name] | ["completed"] | ["error", tag]}  (C22 only)
+          | {"k": "raise", "at": k}  (C20/C21/C23 only)
           "at" = 0-based index of the observer's own callback inside which the action is performed.
+          "raise" makes the handler raise Tagged("obs:<id>") after recording the notification.  Armed only on the three
+          synchronous subjects, only for the FIRST observer with that behaviour and only when every other observer of the
+          case is plain.  What the statement determines afterwards is checked (observers served before the raiser, every
+          later notification to every subscribed observer, terminal/current value seen by later subscribers); what it does
+          not determine is left open (whether the call re-raises, whether observers after the raiser in the same delivery
+          still get that notification, what the raiser itself sees from then on).
           "emit" calls the subject re-entrantly from inside the handler.  It is armed only on a ReplaySubject (deliveries
           are queued per subscriber, so the outcome is determined: the emission joins the history at the current virtual
           time and is queued to every current subscriber after what is already queued for it), only for the FIRST
@@ -89,6 +99,7 @@ class MObs:
         self.stopped = False  # unsubscribed, or received a terminal
         self.ncb = 0
         self.fuzzy = None  # (lower_len, upper_list): C22 victim of an in-drain unsubscribe by another observer
+        self.ignored = False  # its handler raised: what it sees from then on is not determined by the statements
         self.in_subscribe = False  # its subscribe() call has not returned yet: nobody holds its subscription handle
         self.want_unsub = False
 
@@ -108,6 +119,10 @@ class Model:
         self.has_value = False
         self.buf = cfg.get("buf") if kind == "replay" else None
         self.win = cfg.get("win") if kind == "replay" else None
+        self.clock = cfg.get("clock", "test") if kind == "replay" else None
+        self.auto_drain = self.clock == "default"  # current-thread trampoline: queued deliveries run before the call returns
+        if self.auto_drain:
+            self.win = None
         self.history = []  # replay: (tick, ["N", canon]) of every accepted on_next
         self.now = 0
         self.in_drain = False
@@ -117,8 +132,15 @@ class Model:
         self.raised_of = lambda oid: None
         self.emit_ok = False  # set by run_history from a pre-scan of the case
         self.emitter = None  # oid of the one armed re-entrant emitter
+        self.raise_ok = False  # set by run_history from a pre-scan of the case
+        self.raiser = None  # oid of the one armed raising observer
+        self.abort = False  # a handler raised during the current command's delivery
+        self.raised_tag = None
+        self.any_raised = False
         # evidence
         self.flags = set()
+        if self.clock not in (None, "test"):
+            self.flags.add("clock:" + self.clock)
         self.n_next = 0
 
     # -- helpers ------------------------------------------------------------------------
@@ -156,6 +178,8 @@ class Model:
 
     def _receive(self, o, notif):
         o.received.append(notif)
+        if self.any_raised and not self.abort and not o.ignored:
+            self.flags.add("delivered-after-raise")  # in a later command than the one whose handler raised
         k = o.ncb
         o.ncb += 1
         if notif[0] != "N":
@@ -169,6 +193,15 @@ class Model:
 
     def _fire(self, o, notif):
         k = o.beh["k"]
+        if k == "raise":
+            if o.oid != self.raiser:
+                return  # not armed: acts as a plain recorder
+            self.flags.add("callback-raised:" + ("in-subscribe" if o.in_subscribe else ("next" if notif[0] == "N" else "terminal")))
+            self.abort = True
+            self.any_raised = True
+            self.raised_tag = ["exc", "obs:" + o.oid]
+            o.ignored = True
+            return
         if k == "emit":
             if o.oid != self.emitter:
                 return  # not armed: acts as a plain recorder
@@ -225,14 +258,18 @@ class Model:
         if o in self.live:
             self.live.remove(o)
 
-    def _subscribe(self, o, bare):
+    def _subscribe(self, o, bare, hold=False):
         o.in_subscribe = True
         try:
             return self._subscribe_inner(o, bare)
         finally:
-            o.in_subscribe = False
-            if o.want_unsub:
-                self._unsubscribe(o, by=o)
+            if not hold:
+                self._end_subscribe(o)
+
+    def _end_subscribe(self, o):
+        o.in_subscribe = False
+        if o.want_unsub:
+            self._unsubscribe(o, by=o)
 
     def _subscribe_inner(self, o, bare):
         if self.disposed:
@@ -288,6 +325,8 @@ class Model:
     def begin(self, raised_of):
         """Freeze the candidate list for in-callback 'unsub_other' actions of this command."""
         self.raised_of = raised_of
+        self.abort = False
+        self.raised_tag = None
         ok = ("plain", "unsub_self") if self.kind == "replay" else ("plain", "unsub_self", "unsub_other", "sub_new")
         self.cands = [o.oid for o in self.live if "." not in o.oid and o.beh["k"] in ok]
 
@@ -302,10 +341,20 @@ class Model:
         self.obs[o.oid] = o
         if beh["k"] == "emit" and self.emit_ok and self.emitter is None:
             self.emitter = o.oid
+        if beh["k"] == "raise" and self.raise_ok and self.raiser is None:
+            self.raiser = o.oid
         return o
 
     def cmd_sub(self, o, bare):
-        return self._subscribe(o, bare)
+        if not self.auto_drain:
+            return self._subscribe(o, bare)
+        # default scheduler: the top-level subscribe() runs inside the trampoline it creates, so the replay (and
+        # whatever the callbacks trigger) is delivered before subscribe() returns, i.e. before a handle exists
+        try:
+            return self._subscribe(o, bare, hold=True)
+        finally:
+            self.drain()
+            self._end_subscribe(o)
 
     def cmd_unsub(self, oid):
         o = self.obs[oid]
@@ -339,8 +388,21 @@ class Model:
             if o.stopped:
                 self.flags.add("skipped-unsubscribed-in-snapshot")
                 continue
+            if self.abort:
+                self._optional(o, [n])
+                continue
             self._deliver(o, n)
         return None
+
+    def _optional(self, o, items):
+        """A handler raised earlier in this delivery: whether the remaining observers of the snapshot still get the
+        notification is not determined (the exception may abort the delivery); accept any prefix of `items`."""
+        if o.ignored:
+            return
+        self.flags.add("optional-after-raise")
+        o.fuzzy = (len(o.received), o.received + items)
+        if items[-1][0] != "N":
+            o.stopped = True  # the terminal happened; delivered to it or not, it gets nothing later
 
     def cmd_terminal(self, t):
         if self.disposed:
@@ -359,6 +421,10 @@ class Model:
             if with_value and self.value[1] in FALSY_CANON:
                 self.flags.add("async-falsy-last-value")
         for o in snapshot:
+            if self.abort:
+                if not o.stopped:
+                    self._optional(o, ([self.value] if with_value else []) + [t])
+                continue
             if with_value and not o.stopped:
                 self._receive(o, self.value)
             if o.stopped:
@@ -435,11 +501,20 @@ class Driver:
         elif kind == "async":
             self.subject = AsyncSubject()
         elif kind == "replay":
-            self.lab = Lab()
-            self.subject = ReplaySubject(cfg.get("buf"), cfg.get("win"), self.lab.sched)
+            clock = cfg.get("clock", "test")
+            if clock == "default":
+                self.subject = ReplaySubject(cfg.get("buf"))
+            elif clock == "hist":
+                self.lab = Lab("hist", tick_s=0.001)
+                win = cfg.get("win")
+                self.subject = ReplaySubject(cfg.get("buf"), None if win is None else self.lab.rel(win), self.lab.sched)
+            else:
+                self.lab = Lab()
+                self.subject = ReplaySubject(cfg.get("buf"), cfg.get("win"), self.lab.sched)
         self.recs = {}
         self.cands = []
         self.emitter = None
+        self.raiser = None
 
     def subscribe(self, rec, bare):
         self.recs[rec.oid] = rec
@@ -452,6 +527,8 @@ class Driver:
         except DisposedException:
             rec.sub_raised = "disposed"
             return "disposed"
+        except Tagged as e:  # an armed raising observer; nothing else raises Tagged
+            return ["exc", e.tag]
         rec.handle = h
         if rec.want_dispose:
             h.dispose()
@@ -469,6 +546,9 @@ class Driver:
                 self.recs[v].unsubscribe()
         elif k == "sub_new":
             self.subscribe(Rec(self, rec.oid + ".c", b["child"]), False)
+        elif k == "raise":
+            if rec.oid == self.raiser:
+                raise Tagged("obs:" + rec.oid)
         elif k == "emit":
             if rec.oid != self.emitter:
                 return
@@ -511,6 +591,8 @@ def _call(f, *a):
         f(*a)
     except DisposedException:
         return "disposed"
+    except Tagged as e:  # an armed raising observer's exception reaching the caller
+        return ["exc", e.tag]
     return None
 
 
@@ -520,9 +602,10 @@ def run_history(kind, case, check_observers_state=False):
     m = Model(kind, cfg)
     subj = drv.subject
     raised_of = lambda oid: drv.recs[oid].sub_raised if oid in drv.recs else None  # noqa
+    m.raise_ok = kind != "replay" and all(c[1]["k"] in ("plain", "raise") for c in cmds if c[0] == "sub")
     m.emit_ok = kind == "replay" and not any(c[0] == "sub" and c[1]["k"] in ("unsub_other", "sub_new") for c in cmds)
     steps = list(cmds)
-    if kind == "replay":
+    if kind == "replay" and not m.auto_drain:
         steps = steps + [["adv", 0]]  # final drain
     for idx, cmd in enumerate(steps):
         op = cmd[0]
@@ -534,6 +617,7 @@ def run_history(kind, case, check_observers_state=False):
             bare = bool(beh.get("bare")) and m.disposed
             mo = m.new_top(beh)
             drv.emitter = m.emitter
+            drv.raiser = m.raiser
             got = drv.subscribe(Rec(drv, mo.oid, beh), bare)
             exp = m.cmd_sub(mo, bare)
         elif op == "unsub":
@@ -555,7 +639,7 @@ def run_history(kind, case, check_observers_state=False):
             got = _call(subj.dispose)
             exp = m.cmd_dispose()
         elif op == "adv":
-            if kind != "replay":
+            if kind != "replay" or m.auto_drain:
                 continue
             inc = drv.drain(cmd[1])
             if inc:
@@ -566,13 +650,17 @@ def run_history(kind, case, check_observers_state=False):
             exp = m.cmd_adv(cmd[1])
         else:
             raise HarnessError(f"unknown command {cmd}")
+        if m.auto_drain and op != "sub":
+            m.drain()
         # ---- compare after every step -------------------------------------------------
-        if got != exp:
+        if got != exp and not (m.raised_tag is not None and exp is None and got == m.raised_tag):
             return FAIL(f"{kind}:exception:{op}", f"step {idx} {cmd}: call raised {got}, model expects {exp}; case={case}", classes=_classes(m))
         if set(drv.recs) != set(m.obs):
             return FAIL(f"{kind}:observer-set", f"step {idx} {cmd}: real {sorted(drv.recs)} model {sorted(m.obs)} case={case}", classes=_classes(m))
         for oid, mo in m.obs.items():
             r = drv.recs[oid]
+            if mo.ignored:
+                continue
             if r.after_unsub:
                 return FAIL(
                     f"{kind}:delivered-after-unsubscribe:{op}",
@@ -599,7 +687,7 @@ def run_history(kind, case, check_observers_state=False):
                     f"step {idx} {cmd}: observer {oid} ({mo.beh}) expected {mo.received} got {r.received}; case={case}",
                     classes=_classes(m),
                 )
-        if check_observers_state and not m.disposed:
+        if check_observers_state and not m.disposed and not m.any_raised:
             n_real = len(subj.observers)
             if n_real != len(m.live):
                 return FAIL(
@@ -624,6 +712,8 @@ def _classes(m):
 
 def nontrivial(kind, flags):
     f = flags
+    if "delivered-after-raise" in f:
+        return True
     if kind == "subject":
         return "sub-after-next" in f and ("incb-unsub-live" in f or "late-sub-after-error" in f or "late-sub-after-completed" in f)
     if kind == "behavior":
@@ -662,7 +752,9 @@ _EMIT_WHAT = st.one_of(
 )
 _EM = st.builds(lambda a, w: {"k": "emit", "at": a, "what": w}, st.integers(0, 3), _EMIT_WHAT)
 REENTRANT_BEHAVIOURS = st.one_of(_PLAIN, _US, _EM)
+_RS = st.builds(lambda a: {"k": "raise", "at": a}, st.integers(0, 3))
 _SUB = st.builds(lambda b: ["sub", b], BEHAVIOURS)
+_SUB_RAISE = st.builds(lambda b: ["sub", b], st.one_of(_PLAIN, _RS))
 _SUB_RE = st.builds(lambda b: ["sub", b], REENTRANT_BEHAVIOURS)
 _UNSUB = st.builds(lambda i: ["unsub", i], st.integers(0, 7))
 _NEXT = st.builds(lambda v: ["next", v], st.sampled_from(NAMES))
@@ -675,7 +767,7 @@ _ADV = st.builds(lambda d: ["adv", d], st.sampled_from([0, 0, 1, 1, 1, 2, 3, 5])
 _BY_OP = {"sub": _SUB, "next": _NEXT, "unsub": _UNSUB, "adv": _ADV, "error": _ERROR, "completed": _COMPLETED, "dispose": _DISPOSE}
 
 
-def commands(kind, active_only=False, falsy_error=False, reentrant=False):
+def commands(kind, active_only=False, falsy_error=False, reentrant=False, raising=False):
     """One command.  Weights are realised with sampled_from over a repeated op list (one_of would de-duplicate
     repeated branches).  Terminals and, even more, dispose are rare: what follows them only exercises the
     late-subscriber / DisposedException clauses."""
@@ -690,6 +782,8 @@ def commands(kind, active_only=False, falsy_error=False, reentrant=False):
     by_op = dict(_BY_OP, falsy=st.just(["error", "falsy"]))
     if reentrant:
         by_op["sub"] = _SUB_RE
+    if raising:
+        by_op["sub"] = _SUB_RAISE
 
     @st.composite
     def _cmd(draw):
@@ -714,15 +808,18 @@ def _sized(elem, mins, hi):
     return st.one_of(*[st.lists(elem, min_size=lo, max_size=hi) for lo in mins if lo <= hi])
 
 
-def histories(kind, max_cmds, falsy_error=False, reentrant=False):
+def histories(kind, max_cmds, falsy_error=False, reentrant=False, clock=None, raising=False):
     """An 'active' prefix (no terminal, no dispose) followed by a general tail; one JSON list, shrinks as one value."""
     half = max(1, max_cmds // 2)
     cmds = st.builds(
         lambda a, b: a + b,
-        _sized(commands(kind, active_only=True, reentrant=reentrant), (0, 6, 14, 30), half),
-        _sized(commands(kind, falsy_error=falsy_error, reentrant=reentrant), (1, 5, 12), half),
+        _sized(commands(kind, active_only=True, reentrant=reentrant, raising=raising), (0, 6, 14, 30, 50), half),
+        _sized(commands(kind, falsy_error=falsy_error, reentrant=reentrant, raising=raising), (1, 5, 12, 25), half),
     )
-    return st.fixed_dictionaries({"cfg": configs(kind), "cmds": cmds})
+    cfgs = configs(kind)
+    if clock is not None:
+        cfgs = cfgs.map(lambda c: dict(c, clock=clock))
+    return st.fixed_dictionaries({"cfg": cfgs, "cmds": cmds})
 
 
 def enumerate_histories(alphabet, cfgs, max_len):
@@ -772,6 +869,14 @@ class RaceRec:
 
 
 def _apply_model(m, c):
+    try:
+        _apply_model_inner(m, c)
+    finally:
+        if m.auto_drain:
+            m.drain()
+
+
+def _apply_model_inner(m, c):
     if c[0] == "next":
         m.cmd_next(c[1])
     elif c[0] == "error":
@@ -782,7 +887,16 @@ def _apply_model(m, c):
         raise HarnessError(f"race emit {c}")
 
 
-def race_allowed(kind, cfg, emits, pre):
+def _emit_real(subj, c):
+    if c[0] == "next":
+        subj.on_next(val(c[1]))
+    elif c[0] == "error":
+        subj.on_error(make_error(c[1]))
+    else:
+        subj.on_completed()
+
+
+def race_allowed(kind, cfg, emits, pre, before=()):
     """Linearizability oracle: the racing subscriber must see what the sequential model gives it when its subscribe
     is placed at SOME position j of the emitter's call sequence (0 = before every call ... n = after all of them);
     observers subscribed before the race must see exactly the sequential outcome."""
@@ -791,6 +905,8 @@ def race_allowed(kind, cfg, emits, pre):
         m = Model(kind, cfg)
         m.begin(lambda oid: None)
         pres = [m.new_top({"k": "plain"}) for _ in range(pre)]
+        for c in before:
+            _apply_model(m, c)
         for p in pres:
             m.cmd_sub(p, False)
         for c in emits[:j]:
@@ -806,20 +922,23 @@ def race_allowed(kind, cfg, emits, pre):
 
 def det_race(case):
     """case = {"kind", "cfg", "emits": [["next", v] | ["error", tag] | ["completed"], ...], "pre": n, "K": k,
-    "first": "sub" | "emit"}.
+    "first": "sub" | "emit", "before": [emits made before the race]}.  kind "replay" needs cfg {"clock": "default"}.
     Thread A: subject.subscribe(recorder)  ||  thread B: the emits in order, on a subject created after patching."""
     from . import det
 
     kind, cfg, emits, pre, K = case["kind"], case.get("cfg") or {}, case["emits"], case.get("pre", 0), case["K"]
-    if kind == "replay":
-        raise HarnessError("det_race: ReplaySubject not supported (per-subscriber scheduler hops)")
-    allowed, pre_exp = race_allowed(kind, cfg, emits, pre)
+    before = case.get("before") or []
+    if kind == "replay" and cfg.get("clock") != "default":
+        raise HarnessError("det_race: ReplaySubject only with the default (current-thread) scheduler")
+    allowed, pre_exp = race_allowed(kind, cfg, emits, pre, before)
     kw = dict(max_steps=6000, reuse_threads=True, wall_timeout=30.0)
 
     def factory():
         _fresh_thread_state()
         drv = Driver(kind, cfg)  # subject created while patched: its RLock is cooperative
         subj = drv.subject
+        for c in before:
+            _emit_real(subj, c)
         pres = [RaceRec() for _ in range(pre)]
         for p in pres:
             p.handle = subj.subscribe(p)
@@ -830,12 +949,7 @@ def det_race(case):
 
         def tb():
             for c in emits:
-                if c[0] == "next":
-                    subj.on_next(val(c[1]))
-                elif c[0] == "error":
-                    subj.on_error(make_error(c[1]))
-                else:
-                    subj.on_completed()
+                _emit_real(subj, c)
 
         # thread 0 runs first in the unpreempted schedule; with K preemptions the *other* thread is the one that can
         # be interrupted at most K-1 times, so both orders are needed to cut into either call with K=1
